@@ -4,5 +4,6 @@ CONSTANTS
   A1 = {0, 255}
   A2 = {97}
   ShardCheck = TRUE
+  Quick = TRUE
 INVARIANTS C17_Roundtrip C17_Versions
 CHECK_DEADLOCK FALSE
